@@ -4,6 +4,7 @@ import (
 	"bytes"
 	"encoding/hex"
 	"fmt"
+	"free5gclib/UeauCommon"
 	"strings"
 	"sync"
 	"time"
@@ -173,6 +174,53 @@ func runC05(ctx *Ctx) {
 	vs = append(vs, v)
 	if !ctx.Lead() {
 		return
+	}
+	// The generic KDF itself (TS 33.220 B.2), as one sequential history in which the caller keeps ONE key buffer and ONE
+	// buffer per parameter and overwrites them in place between calls; every earlier result is looked at again after
+	// the next call. Results must depend on the argument values only.
+	{
+		lk := r.Local()
+		var kdfHeld held
+		keyBuf, p0Buf, p1Buf := make([]byte, 32), make([]byte, 40), make([]byte, 8)
+		kdfKeys := [][]byte{pattern(1, 32), pattern(2, 32), make([]byte, 32), pattern(1, 32), bytes.Repeat([]byte{0xff}, 32), pattern(3, 16)}
+		p0s := [][]byte{[]byte("5G:mnc001.mcc001.3gppnetwork.org"), []byte("001010000000001"), {0x01}, {}}
+		p1s := [][]byte{{0x00, 0x00}, hx("ff9bb4d0b607"), {0x02}}
+		n := 0
+		for round := 0; round < 2; round++ {
+			for _, fc := range []string{"69", "6A", "6B", "6C", "6D"} {
+				for _, key := range kdfKeys {
+					for pi, p0 := range p0s {
+						p1 := p1s[(pi+n)%len(p1s)]
+						n++
+						kb, a, b := keyBuf[:len(key)], p0Buf[:len(p0)], p1Buf[:len(p1)]
+						copy(kb, key)
+						copy(a, p0)
+						copy(b, p1)
+						cs := fmt.Sprintf("GetKDFValue(key=%x.., FC=%s, P0=%x, P1=%x) with the caller's buffers reused", key[:4], fc, p0, p1)
+						var got []byte
+						if perr := recoverErr(func() {
+							got = UeauCommon.GetKDFValue(kb, fc, a, UeauCommon.KDFLen(a), b, UeauCommon.KDFLen(b))
+						}); perr != nil {
+							r.Violate("KDF/panic", cs, perr.Error(), nil)
+							continue
+						}
+						fcb, _ := hex.DecodeString(fc)
+						want := refcrypto.KDF(key, fcb[0], p0, p1)
+						lk.Case(cs, true, fmt.Sprintf("%x", got[:4]))
+						if !bytes.Equal(got, want) {
+							r.Violate("KDF/value/caller-reuses-buffers", cs, fmt.Sprintf("got %x want %x", got, want), nil)
+						}
+						if !bytes.Equal(kb, key) || !bytes.Equal(a, p0) || !bytes.Equal(b, p1) {
+							r.Violate("KDF/argument-modified", cs, fmt.Sprintf("key %x P0 %x P1 %x after the call", kb, a, b), nil)
+						}
+						kdfHeld.next(r, "KDF/result-changed-by-a-later-call", got, cs)
+					}
+				}
+			}
+		}
+		lk.Merge()
+		r.Set("kdf_history_calls", n)
+		r.Sample("GetKDFValue(K1,FC 6A,..) ; same key buffer overwritten with K2 ; GetKDFValue(K2,FC 6A,..) ; ... results against HMAC-SHA-256 written out by the harness")
 	}
 	lh := r.Local()
 	nseq := 0
